@@ -102,6 +102,8 @@ def pipeline_cases():
         for p in PAGES:
             for l in LOCALS:
                 yield d, p, l, "str"
+                if d is None and p is None:
+                    yield d, p, l, "str-strict"      # under strict_undefined no flag name may be looked up in the context
                 # a non-str value: only where every filter of the pipeline accepts one
                 if not any(f in _STR_ONLY or f.startswith("decode.") for f in l + (p or []) + (d or [])):
                     yield d, p, l, "obj"
@@ -115,6 +117,8 @@ def run_pipeline(args):
     head = '<%%page expression_filter="%s"/>' % ", ".join(p) if p is not None else ""
     src = head + "${v%s}" % ((" | " + ", ".join(l)) if l else "")
     kw = {} if d is None else {"default_filters": d}
+    if len(args) >= 4 and args[3] == "str-strict":
+        kw["strict_undefined"] = True
     try:
         out = Template(src, imports=IMPORTS, **kw).render_unicode(v=value)
     except Exception as e:
